@@ -75,6 +75,7 @@ def _bufsizes(rng, n):
 
 def gen_case(rng, tier, g):
     case = _gen_case(rng, tier, g)
+    case['fluent'] = rng.random() < 0.15
     # the host application's petl.config / logging set-up must not matter
     cfg = draw_config(rng, 0.12, exclude=('sort_buffersize', 'failonerror'))
     if cfg:
@@ -233,6 +234,9 @@ def _history(e, case, tables, expected, td, sb, log, probes):
         kw['cache'] = False
     if case['tempdir']:
         kw['tempdir'] = td
+    if case.get('fluent'):
+        from sim.loader import Fluent
+        e = Fluent(e)
     if case['op'] == 'sort':
         src0 = srcs[0]
         if case.get('inner') is not None:
